@@ -1,7 +1,7 @@
 """Which units decide which property."""
 from props import ArmsKaniUnit, JitKaniUnit, KaniUnit
 from ex_units import JitSmtUnit
-from tv_units import AllocTVUnit, FlattenTVUnit, SimplifyTVUnit, BytecodeTVUnit
+from tv_units import AllocTVUnit, FlattenTVUnit, SimplifyTVUnit, BytecodeTVUnit, ConstructTVUnit
 
 LIBM_STUBS = [
     "f32::sin, f32::cos -> functional, NaN/inf->NaN, range [-1,1] (no monotonicity)",
@@ -45,6 +45,10 @@ PROPS = {
     "C02": {
         "level": "model_checking",
         "units": [JitSmtUnit(["point", "fslice"])],
+    },
+    "C12": {
+        "level": "translation_validation",
+        "units": [ConstructTVUnit()],
     },
     "C15": {
         "level": "translation_validation",
